@@ -108,7 +108,13 @@ func runC12(e *sim.Env) {
 	for i := 0; i < k; i++ {
 		s := newChainSUT(e, net, simdisk.New())
 		time.Sleep(time.Duration(e.Range(1, 900)) * time.Millisecond) // nodes do not start at the same instant
-		n := newNetNode(e, "C12", net, nw, i+1, nil, s, nodeOpts()...)
+		var ncm syncer.ChainManager
+		if e.Chance(1, 3) {
+			// a slow node: some of its header responses leave late
+			ncm = &stallingCM{ChainManager: s.cm, every: e.Range(1, 4), stall: time.Duration(e.Range(20, 2000)) * time.Millisecond}
+			e.Fault("slow-header-responses")
+		}
+		n := newNetNode(e, "C12", net, nw, i+1, ncm, s, nodeOpts()...)
 		nodes = append(nodes, n)
 		hosts = append(hosts, n.host)
 		nn := n
@@ -245,6 +251,45 @@ func runC12(e *sim.Env) {
 			}
 		}
 	}
+	// 1 run in 3 (above the require height): the node on the heaviest chain
+	// keeps finding blocks while the others are still syncing from it, and
+	// announces each one; the goal moves with it
+	var earlyErr error
+	if dominant.L.State.Index.Height >= net.Require() && e.Chance(1, 3) {
+		var exts []*gen.Node
+		var delays []time.Duration
+		var hows []int
+		t := dominant
+		for i, kk := 0, e.Range(1, 4); i < kk; i++ {
+			t = tree.Extend(e, t, bo)
+			exts = append(exts, t)
+			delays = append(delays, time.Duration(e.Range(50, 5000))*time.Millisecond)
+			hows = append(hows, e.Intn(3))
+		}
+		if t.Block.V2 != nil {
+			miner := nodes[0]
+			go func() {
+				for i, x := range exts {
+					time.Sleep(delays[i])
+					if err := miner.s.cm.AddBlocks([]types.Block{x.Block}); err != nil {
+						earlyErr = err
+						return
+					}
+					switch hows[i] {
+					case 0:
+						miner.sy.BroadcastV2Header(x.Block.Header())
+					case 1:
+						miner.sy.BroadcastV2Header(x.Block.Header())
+						miner.sy.BroadcastV2BlockOutline(gateway.OutlineBlock(x.Block, nil, nil))
+					case 2:
+						miner.sy.BroadcastV2BlockOutline(gateway.OutlineBlock(x.Block, nil, nil))
+					}
+				}
+			}()
+			dominant = t
+			e.Fault("blocks-found-during-sync")
+		}
+	}
 	connect()
 	for _, l := range cpNodes {
 		l.n.ps.AddPeer(l.full.addr)
@@ -313,6 +358,9 @@ func runC12(e *sim.Env) {
 		}
 	}
 	awaitAll(dominant, "the last fault")
+	if earlyErr != nil {
+		e.Violationf("C12.valid-accepted", "early-block", "a block found during the sync phase was rejected by its own node: %v", earlyErr)
+	}
 	// a node finds new blocks and announces them
 	if dominant.L.State.Index.Height >= net.Require() && e.Chance(1, 2) {
 		miner := nodes[e.Intn(len(nodes))]
@@ -357,7 +405,7 @@ var _ = sim.NewEnv
 func init() {
 	register(&Prop{
 		ID: "C12", Run: runC12, Race: true, RunTimeout: 20, Quick: 1500, Thorough: 30000, Level: "exploration",
-		Rule:        "one run = drawn network, fork tree (1 run in 8 with a 90-230 block stretch beyond the 100-block request split and the exponential history sample) made dominant, 2-5 real nodes (syncer + gateway + mux + manager) each started on its own branch or interior block, a drawn topology (line, star, ring, clique) and connection order, drawn sync interval / discovery interval / MaxSendBlocks / peer limits, per-connection latency and jitter from a seeded PRNG, and for 2 runs in 3 a phase of partitions, heals and connection resets; 1 run in 3 (when the heaviest chain reaches above the require height) adds 1-2 nodes started from a v2 checkpoint on it (chain.NewDBStoreAtCheckpoint), attached to a drawn full node; 1 run in 4 instead keeps the drawn topology static (no peer discovery, no faults) so that nodes not connected to the source depend on the relays, and 1 run in 6 with three or more nodes makes that a star whose hub starts 3-20 blocks behind a drawn tip, so that it syncs from peers on different forks at once; after the last fault every node must, within 45 simulated minutes, sit on the unique sufficiently-heaviest valid chain; in half of the runs above the require height a drawn node then extends the chain by 1-4 blocks and announces the tip (header only / header then outline / outline only) and all nodes must reach it within the same bound, and the C01 audit must hold on every node at every poll; distinct = (regime, topology, size, fault kinds); all completed runs are non-trivial",
+		Rule:        "one run = drawn network, fork tree (1 run in 8 with a 90-230 block stretch beyond the 100-block request split and the exponential history sample) made dominant, 2-5 real nodes (syncer + gateway + mux + manager) each started on its own branch or interior block, a drawn topology (line, star, ring, clique) and connection order, drawn sync interval / discovery interval / MaxSendBlocks / peer limits, per-connection latency and jitter from a seeded PRNG, 1 node in 3 slow (every 1st-4th header response held back 20-2000 ms after it was computed), and for 2 runs in 3 a phase of partitions, heals and connection resets; 1 run in 3 (when the heaviest chain reaches above the require height) adds 1-2 nodes started from a v2 checkpoint on it (chain.NewDBStoreAtCheckpoint), attached to a drawn full node; 1 run in 4 instead keeps the drawn topology static (no peer discovery, no faults) so that nodes not connected to the source depend on the relays, and 1 run in 6 with three or more nodes makes that a star whose hub starts 3-20 blocks behind a drawn tip, so that it syncs from peers on different forks at once; 1 run in 3 (above the require height) the node on the heaviest chain finds 1-4 more blocks at drawn instants while the others are still syncing and announces each (header / header and outline / outline); after the last fault every node must, within 45 simulated minutes, sit on the unique sufficiently-heaviest valid chain; in half of the runs above the require height a drawn node then extends the chain by 1-4 blocks and announces the tip (header only / header then outline / outline only) and all nodes must reach it within the same bound, and the C01 audit must hold on every node at every poll; distinct = (regime, topology, size, fault kinds); all completed runs are non-trivial",
 		Real:        []string{"syncer.Syncer (accept/peer/sync loops, parallel sync, relays)", "go.sia.tech/core/gateway + go.sia.tech/mux (real handshake, encryption, framing)", "chain.Manager + chain.DBStore per node"},
 		Stub:        []string{"network: simnet in-memory TCP (seeded per-connection delays, partitions, resets)", "peer store: harness peerStore with real bans", "disk: simdisk.DB"},
 		Assumptions: []string{"goroutine wake-up order is whatever the single-P runtime produces; it is perturbed per seed through drawn network delays, not chosen event by event", "checkpoint-bootstrapped nodes are leaves attached to a full node (they cannot serve history below their checkpoint)"},
